@@ -257,7 +257,7 @@ EXPLANATION = ("get_nn_dist is proved (quantified obligations over the sorted ra
                "role-based arrangements that reach every branch; that part is labelled bounded and never counted as proved.")
 ASSUMPTIONS = ["sklearn KDTree.query_radius(sort_results=True) contract; numpy boolean-mask selection keeps order",
                "pandas semantics of the position-function table model (vfw/models/ptable.py): .loc[mask, cols] = v writes exactly the masked cells, .values[0] is the first masked row, np.max is attained and dominates, "
-               ".shape[0] counts the masked rows; counting lemma (assumed): a chain carrying exactly the orders 1..k has t-1 members with order < t",
+               ".shape[0] counts the masked rows (as the cardinality of the set of masked rows); the counting fact 'a chain carrying exactly the orders 1..k has t-1 members with order < t' is proved in Lean (lean/Counting.lean) and instantiated for the call's count",
                "requires of add_chain_suffix / add_chain_prefix (established by trace_chains, not proved there): the traced table satisfies the chain invariant, subtomogram numbers are unique, the particle is a row of it, "
                "object numbers are positive, the new chain's number (and class_max[1]) is not used in the table, the two chains of a two-sided connection differ",
                "trace_chains main loop: no contract within reach (data-dependent merging over pandas state) -- bounded only"]
@@ -266,6 +266,9 @@ ASSUMPTIONS = ["sklearn KDTree.query_radius(sort_results=True) contract; numpy b
 def run(ck):
     for C in CONTRACTS:
         ck.run_contract(C())
+    # the counting fact used by add_chain_prefix's contract (cut_off_size = order_id - 1) is a theorem about finite sets of naturals
+    ck.external_lemma("members_below_t_of_a_downward_closed_chain_number_t_minus_1", "lean lean/Counting.lean", "lean-4.33.0+mathlib",
+                      note="lean/Counting.lean: count_below (a finite set of naturals >= 1 that contains x-1 with every x > 1 has exactly t-1 elements below any of its elements t)", timeout=600)
     from rtc import c19 as r
     n = 300 if ck.tier == "quick" else 5000
     ck.bounded_run("trace_chains", r.gen_cases(ck.seed, n, 25 if ck.tier == "quick" else 60), r.run_case, ref="rtc.c19:run_case",
